@@ -88,7 +88,7 @@ func TestSweep(t *testing.T) {
 		}
 	}
 	// channel counts around 65536 (a count narrowed to 16 bits would wrap)
-	for _, C := range []int{65535, 65536, 65537, 65538} {
+	for _, C := range []int{255, 256, 257, 65535, 65536, 65537, 65538} {
 		lens := make([]int, C)
 		for ch := range lens {
 			lens[ch] = 2 - ch%2
